@@ -229,6 +229,22 @@ def expected_shape(world: World, entry: str, a: dict):
 ZERO_TOL = 1e-12  # an Experiment-level probability at or below this is a round-off zero: not judged
 
 
+LOG_L = math.log(2 * 16 / 1e-15)  # Bernstein: each per-outcome bound fails on correct code with probability <= 1e-15 / 16
+
+
+def _bernstein_violation(counts, p, n, where):
+    """per-outcome deviation of the counts of ONE sample from n*p by more than the Bernstein bound (valid for each
+    binomial marginal; decisive for tiny probabilities and huge n, where Hoeffding is blind)."""
+    pn = p / p.sum()
+    v = n * pn * (1 - pn)
+    t = np.sqrt(2 * v * LOG_L) + 2 * LOG_L / 3 + 1e-9 * n
+    dev = np.abs(counts - n * pn)
+    j = int(np.argmax(dev - t))
+    if dev[j] > t[j]:
+        return f"{where}: outcome {j} of probability {pn[j]:.3e} was drawn {counts[j]:.0f} times in {n} draws (expected {n * pn[j]:.1f} +- {t[j]:.1f})"
+    return None
+
+
 def _check_leaf(leaf, out, where):
     kind, p, n = leaf
     p = np.asarray(p, dtype=np.float64)
@@ -242,6 +258,16 @@ def _check_leaf(leaf, out, where):
                 return f"{where}[{j}]: outcome {d} out of range 0..{len(p) - 1}"
             if p[d] == 0.0:
                 return f"{where}[{j}]: outcome {d} has probability exactly 0 (p={p.tolist()})"
+        if n >= 100:
+            arr = np.asarray(out, dtype=int)
+            msg = _bernstein_violation(np.bincount(arr, minlength=len(p)).astype(float), p, n, where)
+            if msg:
+                return msg + " DISTRIBUTION"
+            # the draws are i.i.d.: every prefix follows the distribution too (order matters for prefix counting)
+            h = n // 2
+            msg = _bernstein_violation(np.bincount(arr[:h], minlength=len(p)).astype(float), p, h, where + "[:n/2]")
+            if msg:
+                return msg + " DISTRIBUTION"
         return None
     if kind == "empi":
         if not (isinstance(out, (list, tuple)) and len(out) == 2):
@@ -253,7 +279,7 @@ def _check_leaf(leaf, out, where):
             return f"{where}: distribution has dtype/shape {getattr(vec, 'dtype', None)}/{getattr(vec, 'shape', None)}, expected float64/{p.shape}"
         counts = vec * n
         r = np.rint(counts)
-        if np.any(np.abs(counts - r) > 1e-6) or np.any(r < 0) or int(r.sum()) != int(n):
+        if np.any(np.abs(counts - r) > 1e-6 + 1e-9 * n) or np.any(r < 0) or int(r.sum()) != int(n):
             return f"{where}: {vec.tolist()} is not counts/{n} with non-negative integer counts summing to {n}"
         if np.any(vec != r / n):
             return f"{where}: {vec.tolist()} is not exactly counts/{n}"
@@ -261,6 +287,10 @@ def _check_leaf(leaf, out, where):
         if len(bad):
             tag = " LASTCAT" if list(bad) == [len(p) - 1] else ""
             return f"{where}: outcome {int(bad[0])} of probability exactly 0 was counted {int(r[bad[0]])} times{tag}"
+        if n >= 100:
+            msg = _bernstein_violation(r, p, n, where)
+            if msg:
+                return msg + " DISTRIBUTION"
         return None
     if kind == "counts":
         vec = np.asarray(out)
@@ -270,6 +300,10 @@ def _check_leaf(leaf, out, where):
         if len(bad):
             tag = " LASTCAT" if list(bad) == [len(p) - 1] else ""
             return f"{where}: outcome {int(bad[0])} of probability exactly 0 sampled{tag}"
+        if n >= 100:
+            msg = _bernstein_violation(vec.astype(float), p, n, where)
+            if msg:
+                return msg + " DISTRIBUTION"
         return None
     return f"{where}: unknown leaf kind {kind}"
 
@@ -311,8 +345,12 @@ def collision_bound(shape):
         else:
             i = int(np.argmin(np.abs(p - 0.5)))
             if 0.0 < p[i] < 1.0:
-                k = np.arange(0, n + 1)
-                m = float(np.max(binom.pmf(k, n, p[i])))
+                if n <= 20000:
+                    k = np.arange(0, n + 1)
+                    m = float(np.max(binom.pmf(k, n, p[i])))
+                else:
+                    # the largest binomial point probability is below 1/sqrt(2 pi n p q) * (1 + 1/(12 n p q)) < 2/sqrt(2 pi n p q)
+                    m = min(1.0, 2.0 / math.sqrt(2 * math.pi * n * p[i] * (1 - p[i])))
                 if 0 < m < 1:
                     logb += math.log(m)
     return math.exp(max(logb, -745.0))
@@ -380,7 +418,7 @@ def gen_vector(rng):
         return v
     w = [rng.random() ** rng.choice([1, 3]) + 1e-3 for _ in support]
     if style == "tiny":
-        w[rng.randrange(len(w))] = rng.choice([1e-15, 1e-12, 1e-9]) * sum(w)
+        w[rng.randrange(len(w))] = rng.choice([1e-15, 1e-12, 4e-9, 1e-9, 3e-8]) * sum(w)
     s = sum(w)
     for i, x in zip(support, w):
         v[i] = x / s
@@ -392,9 +430,10 @@ def gen_vector(rng):
     return v
 
 
-def gen_num_sums(rng, maxn=400, maxlen=3):
+def gen_num_sums(rng, maxn=400, maxlen=3, huge=False):
     m = rng.randint(1, maxlen)
-    vals = sorted(set(rng.choice([1, 2, 3, 5, 10, 17, 50, 100, maxn]) for _ in range(m)))
+    choices = [1, 2, 3, 5, 10, 17, 50, 100, maxn] + ([10 ** 7, 10 ** 9, 10 ** 11] if huge else [])
+    vals = sorted(set(rng.choice(choices) for _ in range(m)))
     return vals
 
 
@@ -437,17 +476,17 @@ def gen_call(rng, pool, entries=None, small=False):
     maxn = 60 if small else 400
     a = {}
     if entry == "gen_data":
-        a = {"v": rng.randrange(nv), "n": rng.choice([0, 1, 2, 7, 30, maxn])}
+        a = {"v": rng.randrange(nv), "n": rng.choice([0, 1, 2, 7, 30, maxn] + ([70000] if (not small and rng.random() < 0.1) else []))}
     elif entry == "gen_dataset":
         m = rng.randint(1, 3)
         a = {"vs": [rng.randrange(nv) for _ in range(m)], "ns": [rng.choice([1, 5, 30, 100]) for _ in range(m)]}
     elif entry == "gen_empi_seq":
-        a = {"v": rng.randrange(nv), "num_sums": gen_num_sums(rng, maxn)}
+        a = {"v": rng.randrange(nv), "num_sums": gen_num_sums(rng, maxn, huge=not small and rng.random() < 0.3)}
     elif entry == "gen_empi_seqs":
         m = rng.randint(1, 3)
-        a = {"vs": [rng.randrange(nv) for _ in range(m)], "list_num_sums": [gen_num_sums(rng, maxn) for _ in range(m)]}
+        a = {"vs": [rng.randrange(nv) for _ in range(m)], "list_num_sums": [gen_num_sums(rng, maxn, huge=not small and rng.random() < 0.3) for _ in range(m)]}
     elif entry == "mult_sampling":
-        a = {"v": rng.randrange(nv), "num": rng.choice([1, 10, 100, 1000]), "size": rng.randint(1, 4)}
+        a = {"v": rng.randrange(nv), "num": rng.choice([1, 10, 100, 1000] + ([10 ** 9, 10 ** 11] if (not small and rng.random() < 0.3) else [])), "size": rng.randint(1, 4)}
     elif entry == "exp_data":
         a = {"sched": rng.randrange(nsch), "n": rng.choice([1, 2, 7, 30, maxn])}
     elif entry == "exp_dataset":
@@ -769,8 +808,11 @@ class Run:
         self.bump("oracle_checks", "V1")
         msg = check_validity(shape, out)
         if msg:
-            where = "zero_prob_last_category" if "LASTCAT" in msg else ("zero_prob" if "probability exactly 0" in msg else "shape_or_counts")
-            raise Violation("V1_validity", msg.replace(" LASTCAT", ""), {"step": idx, "entry": entry, "args": a, "stream": spec if crafted is None else {"k": "crafted", "nums": crafted}},
+            where = "zero_prob_last_category" if "LASTCAT" in msg else ("zero_prob" if "probability exactly 0" in msg else ("distribution" if "DISTRIBUTION" in msg else "shape_or_counts"))
+            if where == "distribution" and crafted is not None:
+                msg = None  # a crafted stream is not a sample of the distribution; only support and shape are judged
+        if msg:
+            raise Violation("V1_validity", msg.replace(" LASTCAT", "").replace(" DISTRIBUTION", ""), {"step": idx, "entry": entry, "args": a, "stream": spec if crafted is None else {"k": "crafted", "nums": crafted}},
                             dict(sig, where=where, route="data" if entry in DATA_ENTRIES else "multinomial"))
         # ---- isolation of the random state (R1/R2/R3)
         k = spec["k"] if crafted is None else "crafted"
